@@ -133,6 +133,8 @@ def run_case(spec):
                 if defect.startswith("very_short"):
                     prof += ":%s:baseline-of-a-few-days" % raising_site(exc)
                     I.reach("gate.very_short_baseline_fit_raised")
+                if getattr(fam, "timer", False):
+                    prof += ":%s:meter-with-one-daily-schedule-all-year" % raising_site(exc)
                 add("fit-did-not-return-a-model:%s:%s:%s%s" % (fam.kind, kind, out, prof), "fit on %s data (override %s) raised %s: %s" % (kind, ign, out, str(exc)[:200]), ignore=ign, **tag)
             else:
                 if data_dq:
@@ -293,7 +295,9 @@ def gen_cases(tier, seed):
                                                                                           # the poor-fit rule under the other fitting paths of the hourly family (adaptive re-weighting, other scaler, solar)
                                                                                           ("hourly:adaptive", "poor_fit"), ("hourly:robust", "poor_fit"), ("hourly:default:ghi", "poor_fit"),
                                                                                           # accepted settings alternatives of the hourly family: fit returns a model (or the typed error) under each of them
-                                                                                          ("hourly:nobins", "none"), ("hourly:nointercept", "none"), ("hourly:enet-random", "too_short"), ("hourly:cluster-cosine", "none")]
+                                                                                          ("hourly:nobins", "none"), ("hourly:nointercept", "none"), ("hourly:enet-random", "too_short"), ("hourly:cluster-cosine", "none"),
+                                                                                          # a degenerate but well-formed meter: a timer-driven load, the same daily schedule all year
+                                                                                          ("hourly:default:timer", "none")]
     else:
         combos = combos * 3 + [("hourly:default", "poor_fit_undefined_metric"), ("hourly:robust", "poor_fit_undefined_metric"), ("hourly:default:ghi", "poor_fit_undefined_metric")]
         # developer / custom profiles too (thorough): the gate must not depend on the profile
